@@ -122,6 +122,19 @@ void harness(void)
 	case SQFS_INODE_EXT_BDEV: case SQFS_INODE_EXT_CDEV: VP_ASSERT(n->data.dev_ext.nlink == nl0, "nlink kept"); break;
 	default: VP_ASSERT(n->data.ipc_ext.nlink == nl0, "nlink kept"); break;
 	}
+	/* attaching and detaching an xattr set touches nothing else */
+	{
+		sqfs_u32 want = ND_U32(), got = 0;
+		sqfs_u32 dev0 = (n->base.type == SQFS_INODE_EXT_BDEV || n->base.type == SQFS_INODE_EXT_CDEV) ? n->data.dev_ext.devno : 0;
+		ret = sqfs_inode_set_xattr_index(n, want);
+		VP_ASSERT(ret == 0 && sqfs_inode_get_xattr_index(n, &got) == 0 && got == want, "C01: the xattr index that was set is the one that is read back, for every inode type");
+		if (n->base.type == SQFS_INODE_EXT_BDEV || n->base.type == SQFS_INODE_EXT_CDEV)
+			VP_ASSERT(n->data.dev_ext.devno == dev0 && n->data.dev_ext.nlink == nl0, "C01: setting an xattr index leaves the device number alone");
+		if (n->base.type == SQFS_INODE_EXT_FIFO || n->base.type == SQFS_INODE_EXT_SOCKET)
+			VP_ASSERT(n->data.ipc_ext.nlink == nl0, "link count untouched");
+		ret = sqfs_inode_set_xattr_index(n, 0xFFFFFFFF);
+		VP_ASSERT(ret == 0, "detach");
+	}
 	/* and back */
 	ret = sqfs_inode_make_basic(n);
 	VP_ASSERT(ret == 0 && n->base.type == t, "an extended inode without xattr, sparse bytes, extra links or wide values becomes basic again");
